@@ -3,7 +3,7 @@
    nat stay the extracted inductive types. *)
 From Coq Require Import Extraction ExtrOcamlBasic.
 From RV Require Import Base.
-From RV.Model Require Import Utf8 Indexer Insn Fold Pike BT Exec.
+From RV.Model Require Import Utf8 Indexer Insn Fold Pike BT Exec Api.
 
 Definition ix_utf8 : indexer := utf8_indexer fold_code_point.
 Definition ix_ascii : indexer := ascii_indexer.
@@ -14,4 +14,12 @@ Definition drv_pk (ascii : bool) (prog : program) (h : hay) (budget : N) (fuel s
   pk_matches (if ascii then ix_ascii else ix_utf8) prog h budget fuel start.
 
 Extraction Language OCaml.
-Extraction "model.ml" drv_bt drv_pk fold_code_point.
+Definition drv_ident (text : list N) (ms : list amatch) :=
+  replace_all_with text ms (fun m => AOk (text_slice text (am_range m))).
+Definition drv_first_ident (text : list N) (ms : list amatch) :=
+  replace_with text ms (fun m => AOk (text_slice text (am_range m))).
+Definition drv_all_const (text : list N) (ms : list amatch) (c : list N) :=
+  replace_all_with text ms (fun _ => AOk c).
+
+Extraction "model.ml" drv_bt drv_pk fold_code_point
+  group named_group named_groups groups replace replace_all drv_ident drv_first_ident drv_all_const escape.
